@@ -103,7 +103,7 @@ def _num(w, which, name):
 def gen_unknown_table(w, r):
     """A table whose type involves a name without codec: known parts are well
     formed, unknown parts arbitrary bytes."""
-    shape = r.choice(["leaf", "seq", "map", "tuple", "nested"])
+    shape = r.choice(["leaf", "seq", "map", "tuple", "nested", "variant"])
     unk = (r.choice(auxm.UNKNOWN_NAMES), [])
     x = r.random()
     if x < 0.15:
@@ -119,6 +119,9 @@ def gen_unknown_table(w, r):
         t = ("mapping", [("string", []), ("tuple", [unk, ("UUID", [])])])
     elif shape == "tuple":
         t = ("tuple", [("uint32_t", []), unk])
+    elif shape == "variant":
+        # the unknown name is ONE ALTERNATIVE of a variant; elements choosing the other one decode
+        t = ("sequence", [("tuple", [("variant", [("string", []), unk]), ("uint8_t", [])])])
     else:
         t = ("mapping", [("string", []), ("sequence", [("tuple", [("int8_t", []), unk])])])
     raw = bytearray()
@@ -148,6 +151,10 @@ def gen_unknown_table(w, r):
         elif n == "tuple":
             for s in subs:
                 emit(s)
+        elif n == "variant":
+            i = r.randrange(len(subs))
+            raw.extend(struct.pack("<Q", i))
+            emit(subs[i])
         else:
             raw.extend(R.encode(auxm.gen_value(w, r, tt), tt, auxm.w_uuid_of(w)))
 
@@ -189,6 +196,8 @@ def encode_noncanonical(cv, t, uuid_of, r):
         elif n == "variant":
             out.extend(struct.pack("<Q", cv["variant"][0]))
             enc(cv["variant"][1], subs[cv["variant"][0]])
+        elif n == "bool" and cv is True and r.random() < 0.3:
+            out.append(r.choice([2, 0x80, 0xFF]))  # any non-zero byte reads as true (C++ / Java / this API)
         else:
             out.extend(R.encode(cv, t, uuid_of))
 
